@@ -138,6 +138,10 @@ class load(DataStreamProcessor):
 
     def safe_process_datapackage(self, dp: Package):
 
+        # what an earlier use of this step collected belongs to that run
+        self.resource_descriptors = []
+        self.iterators = []
+
         # If loading from datapackage & resource iterator:
         if isinstance(self.load_source, tuple):
             datapackage_descriptor, resource_iterator = self.load_source
